@@ -1,5 +1,5 @@
 (* LifeUnfold.v -- the unfolding equations of the mutual recursion of the dispatch functions (repaired variant);
-   generated from the text of LifeDefs.v, each proved by reflexivity. *)
+   generated from the text of LifeDefs.v by tools/mk_life_unfold.py, each proved by reflexivity. *)
 From Coq Require Import ZArith List Bool PArith FMapPositive.
 From Tickit Require Import LifeDefs.
 Import ListNotations.
@@ -8,260 +8,426 @@ Local Open Scope Z_scope.
 Lemma run_op_F : forall f o,
   run_op fixed (S f) o =
   ((match o with ONop | OFrameRef _ | OFrameUnref _ => ret tt | _ => log_op o end) ;;;
-    match o with
-    | ONew p hid low rp st => window_new f p hid low rp st ;;; ret tt
-    | ORef w => window_ref w
-    | OUnref w => unref fixed f w
-    | OClose w => close fixed f w
-    | ORestack ch w => request_change f ch w
-    | OShow w => window_show f w
-    | OHide w => window_hide f w
-    | OFocus w => focus_gained f w None
-    | OSteal w b => upd w (fun c => set_steal c b)
-    | OExpose w => expose f w
-    | OGetRoot w => get_root f w ;;; ret tt
-    | OFlush w => window_flush f w
-    (* the terminal's KEY / MOUSE bindings of the root window exist exactly while it lives *)
-    | OKey => b <- root_bound ;; if b then handle_key fixed f 1%positive ;;; ret tt else ret tt     (* on_term_key *)
-    | OMouse t => b <- root_bound ;; if b then on_term_mouse fixed f t else ret tt
-    | OBind w id k m r acts => upd w (fun c => set_hs c (w_hs c ++ [mkH id k m r acts]))
-    | OUnbind w id => upd w (fun c => set_hs c (filter (fun hd => negb (h_id hd =? id)) (w_hs c)))
-    | OGeom w => getw w ;;; ret tt
-    | ONop => ret tt
-    | OFrameRef _ | OFrameUnref _ => ret tt      (* not calls: in a script they do nothing and leave no trace *)
-    end).
+  match o with
+  | ONew p hid low rp st => window_new f p hid low rp st ;;; ret tt
+  | ORef w => window_ref w
+  | OUnref w => unref fixed f w
+  | OClose w => close fixed f w
+  | ORestack ch w => request_change f ch w
+  | OShow w => window_show f w
+  | OHide w => window_hide f w
+  | OFocus w =>                                         (* tickit_window_take_focus: the ancestors are held *)
+    if v_events_asis fixed then focus_gained fixed f w None
+    else
+      cd <- getw w ;; count_up f (w_parent cd) ;;;
+      cd' <- getw w ;; held <- ref_up fixed f (w_parent cd') ;;
+      focus_gained fixed f w None ;;;
+      unref_list fixed f held
+  | OSteal w b => upd w (fun c => set_steal c b)
+  | OExpose w => expose f w
+  | OGetRoot w => get_root f w ;;; ret tt
+  | OFlush w => window_flush fixed f w
+  (* the terminal's KEY / MOUSE bindings of the root window exist exactly while it lives *)
+  | OKey => b <- root_bound ;; if b then handle_key fixed f 1%positive ;;; ret tt else ret tt     (* on_term_key *)
+  | OMouse t => b <- root_bound ;; if b then on_term_mouse fixed f t else ret tt
+  | OBind w id k m r acts => upd w (fun c => set_hs c (w_hs c ++ [mkH id k m r acts]))
+  | ONotify w b => upd w (fun c => set_fcn c b)
+  | OUnbind w id => upd w (fun c => set_hs c (filter (fun hd => negb (h_id hd =? id)) (w_hs c)))
+  | OGeom w => set_geometry fixed f w
+  | OMove w =>
+    getw w ;;;
+    if v_events_asis fixed then
+      set_geometry fixed f w ;;;
+      c2 <- getw w ;; if w_focused c2 then root <- get_root f w ;; request_restore root else ret tt
+    else                                                (* the ancestors and the window are held across the call *)
+      cd <- getw w ;; count_up f (w_parent cd) ;;;
+      cd' <- getw w ;; held <- ref_up fixed f (w_parent cd') ;;
+      ((log_op (OFrameRef w) ;;; window_ref w) ;;;
+       (set_geometry fixed f w ;;;
+        (c2 <- getw w ;; if w_focused c2 then focus_chain_changed f (Some w) else ret tt)) ;;;
+       (log_op (OFrameUnref w) ;;; unref fixed f w)) ;;;
+      unref_list fixed f held
+  (* the terminal's RESIZE binding of the root window exists exactly while it lives *)
+  | OResize =>
+    b <- root_bound ;; (if b then on_term_resize fixed f else ret tt) ;;;
+    b2 <- root_bound ;; if b2 then expose f 1%positive else ret tt
+  | OTouch w j walk =>
+    getw w ;;; (match j with Some a => getw a ;;; ret tt | None => ret tt end) ;;;
+    if walk then scrollrect f w else ret tt
+  | ONop => ret tt
+  | OFrameRef _ | OFrameUnref _ => ret tt      (* not calls: in a script they do nothing and leave no trace *)
+  end).
 Proof. reflexivity. Qed.
 
 Lemma run_ops_F : forall f l,
   run_ops fixed (S f) l =
   (match l with
-    | [] => ret tt
-    | o :: l' => run_op fixed f o ;;; run_ops fixed f l'
-    end).
+  | [] => ret tt
+  | o :: l' => run_op fixed f o ;;; run_ops fixed f l'
+  end).
 Proof. reflexivity. Qed.
 
 Lemma run_key_handlers_F : forall f w hs,
   run_key_handlers fixed (S f) w hs =
   (match hs with
-    | [] => ret false
-    | h :: hs' =>
-      cw <- getw w ;;
-      if h_key h && existsb (fun hd => h_id hd =? h_id h) (w_hs cw)
-      then run_ops fixed f (h_actions h) ;;; (if h_ret h then ret true else run_key_handlers fixed f w hs')
-      else run_key_handlers fixed f w hs'
-    end).
+  | [] => ret false
+  | h :: hs' =>
+    cw <- getw w ;;
+    if h_is HKey h && existsb (fun hd => h_id hd =? h_id h) (w_hs cw)
+    then run_ops fixed f (h_actions h) ;;; (if h_ret h then ret true else run_key_handlers fixed f w hs')
+    else run_key_handlers fixed f w hs'
+  end).
 Proof. reflexivity. Qed.
 
 Lemma run_mouse_handlers_F : forall f w hs t unset,
   run_mouse_handlers fixed (S f) w hs t unset =
   (match hs with
-    | [] => ret false
-    | h :: hs' =>
-      cw <- getw w ;;
-      if h_key h || negb (existsb (fun hd => h_id hd =? h_id h) (w_hs cw)) then run_mouse_handlers fixed f w hs' t unset
-      else
-        (if unset then note_uninit else ret tt) ;;;
-        if handler_fires_mouse h t
-        then run_ops fixed f (h_actions h) ;;; (if h_ret h then ret true else run_mouse_handlers fixed f w hs' t unset)
-        else run_mouse_handlers fixed f w hs' t unset
-    end).
+  | [] => ret false
+  | h :: hs' =>
+    cw <- getw w ;;
+    if negb (h_is HMouse h) || negb (existsb (fun hd => h_id hd =? h_id h) (w_hs cw)) then run_mouse_handlers fixed f w hs' t unset
+    else
+      (if unset then note_uninit else ret tt) ;;;
+      if handler_fires_mouse h t
+      then run_ops fixed f (h_actions h) ;;; (if h_ret h then ret true else run_mouse_handlers fixed f w hs' t unset)
+      else run_mouse_handlers fixed f w hs' t unset
+  end).
+Proof. reflexivity. Qed.
+
+Lemma run_ev_handlers_F : forall f w hs k,
+  run_ev_handlers fixed (S f) w hs k =
+  (match hs with
+  | [] => ret tt
+  | h :: hs' =>
+    cw <- getw w ;;
+    if h_is k h && existsb (fun hd => h_id hd =? h_id h) (w_hs cw)
+    then run_ops fixed f (h_actions h) ;;; run_ev_handlers fixed f w hs' k
+    else run_ev_handlers fixed f w hs' k
+  end).
+Proof. reflexivity. Qed.
+
+Lemma set_geometry_F : forall f w,
+  set_geometry fixed (S f) w =
+  (getw w ;;;
+  if v_events_asis fixed then c <- getw w ;; run_ev_handlers fixed f w (w_hs c) HGeom
+  else
+    cd <- getw w ;; count_up f (w_parent cd) ;;;
+    cd' <- getw w ;; held <- ref_up fixed f (w_parent cd') ;;
+    ((log_op (OFrameRef w) ;;; window_ref w) ;;;
+     (c <- getw w ;; run_ev_handlers fixed f w (w_hs c) HGeom) ;;;
+     (log_op (OFrameUnref w) ;;; unref fixed f w)) ;;;
+    unref_list fixed f held).
+Proof. reflexivity. Qed.
+
+Lemma on_term_resize_F : forall f,
+  on_term_resize fixed (S f) =
+  (let root := 1%positive in
+  getw root ;;;
+  ((if v_events_asis fixed then ret tt else log_op (OFrameRef root) ;;; window_ref root) ;;;
+   (set_geometry fixed f root ;;; expose f root) ;;;
+   (if v_events_asis fixed then ret tt else log_op (OFrameUnref root) ;;; unref fixed f root))).
+Proof. reflexivity. Qed.
+
+Lemma do_expose_F : forall f w,
+  do_expose fixed (S f) w =
+  ((if v_events_asis fixed then ret tt else log_op (OFrameRef w) ;;; window_ref w) ;;;
+  ((if v_events_asis fixed then c <- getw w ;; expose_kids_asis fixed f w (w_first c)
+    else kids <- copy_children f w ;; expose_kids fixed f w kids) ;;;
+   (c <- getw w ;; run_ev_handlers fixed f w (w_hs c) HExpose)) ;;;
+  (if v_events_asis fixed then ret tt else log_op (OFrameUnref w) ;;; unref fixed f w)).
+Proof. reflexivity. Qed.
+
+Lemma expose_kids_F : forall f w kids,
+  expose_kids fixed (S f) w kids =
+  (match kids with
+  | [] => ret tt
+  | k :: kids' =>
+    still <- is_child f w k ;;
+    if negb still then expose_kids fixed f w kids'
+    else
+      ck <- getw k ;;
+      if negb (w_visible ck) then expose_kids fixed f w kids'
+      else do_expose fixed f k ;;; (is_child f w k ;;; expose_kids fixed f w kids')      (* the mask only if it still is a child *)
+  end).
+Proof. reflexivity. Qed.
+
+Lemma expose_kids_asis_F : forall f w child,
+  expose_kids_asis fixed (S f) w child =
+  (match child with
+  | None => ret tt
+  | Some k =>
+    ck <- getw k ;;
+    (if w_visible ck then do_expose fixed f k ;;; getw k ;;; ret tt else ret tt) ;;;
+    ck2 <- getw k ;;
+    expose_kids_asis fixed f w (w_next ck2)
+  end).
+Proof. reflexivity. Qed.
+
+Lemma focus_lost_F : forall f w,
+  focus_lost fixed (S f) w =
+  ((if v_events_asis fixed then ret tt else log_op (OFrameRef w) ;;; window_ref w) ;;;
+  ((c <- getw w ;;
+    match w_focus c with
+    | Some fc =>
+      focus_lost fixed f fc ;;;
+      (c' <- getw w ;; if w_fcn c' then run_ev_handlers fixed f w (w_hs c') HFocus else ret tt)
+    | None => ret tt
+    end) ;;;
+   (c2 <- getw w ;;
+    if w_focused c2 then setw w (set_focused c2 false) ;;; (c3 <- getw w ;; run_ev_handlers fixed f w (w_hs c3) HFocus) else ret tt)) ;;;
+  (if v_events_asis fixed then ret tt else log_op (OFrameUnref w) ;;; unref fixed f w)).
+Proof. reflexivity. Qed.
+
+Lemma focus_gained_F : forall f w child,
+  focus_gained fixed (S f) w child =
+  ((if v_events_asis fixed then ret tt else log_op (OFrameRef w) ;;; window_ref w) ;;;
+  ((c <- getw w ;;
+    match w_focus c with                         (* if(win->focused_child && win->focused_child != child) *)
+    | Some fc =>
+      if negb (ptr_eqb (Some fc) child) then
+        focus_lost fixed f fc ;;;
+        (c' <- getw w ;; if w_fcn c' then run_ev_handlers fixed f w (w_hs c') HFocus else ret tt)
+      else ret tt
+    | None => ret tt
+    end) ;;;
+   ((match child with                             (* if(child && win->is_focused) *)
+     | Some _ =>
+       c0 <- getw w ;;
+       if w_focused c0 then setw w (set_focused c0 false) ;;; (c0' <- getw w ;; run_ev_handlers fixed f w (w_hs c0') HFocus) else ret tt
+     | None => ret tt
+     end) ;;;
+    ((c1 <- getw w ;;
+      match w_parent c1 with
+      | Some p => if w_visible c1 then focus_gained fixed f p (Some w) else ret tt
+      | None =>                                  (* not necessarily the root: a handler may have closed the window *)
+        if v_events_asis fixed then root <- get_root f w ;; request_restore root else focus_chain_changed f (Some w)
+      end) ;;;
+     ((match child with
+       | None => upd w (fun c => set_focused c true) ;;; (c4 <- getw w ;; run_ev_handlers fixed f w (w_hs c4) HFocus)
+       | Some _ => c4 <- getw w ;; if w_fcn c4 then run_ev_handlers fixed f w (w_hs c4) HFocus else ret tt
+       end) ;;;
+      (* win->focused_child = (child && child->parent != win) ? NULL : child   (pinned: = child) *)
+      (match child with
+       | Some ch =>
+         if v_events_asis fixed then upd w (fun c => set_focus c child)
+         else cch <- getw ch ;; upd w (fun c => set_focus c (if ptr_eqb (w_parent cch) (Some w) then child else None))
+       | None => upd w (fun c => set_focus c None)
+       end))))) ;;;
+  (if v_events_asis fixed then ret tt else log_op (OFrameUnref w) ;;; unref fixed f w)).
+Proof. reflexivity. Qed.
+
+Lemma window_flush_F : forall f w,
+  window_flush fixed (S f) w =
+  (go <- flush_begin f w ;;
+  if go then
+    (* the root is still used after the expose handlers have run: a reference on it *)
+    (if v_events_asis fixed then ret tt else log_op (OFrameRef w) ;;; window_ref w) ;;;
+    ((r2 <- getr w ;;
+      if r_expose r2 then
+        setr w (set_rexpose r2 false) ;;;
+        (do_expose fixed f w ;;;
+         updr w (fun r => set_rrestore r true))
+      else ret tt) ;;;
+     flush_end f w) ;;;
+    (if v_events_asis fixed then ret tt else log_op (OFrameUnref w) ;;; unref fixed f w)
+  else ret tt).
 Proof. reflexivity. Qed.
 
 Lemma handle_key_F : forall f w,
   handle_key fixed (S f) w =
   (c <- getw w ;;
-    if negb (w_visible c) then ret false
-    else
-      log_op (OFrameRef w) ;;; window_ref w ;;;
-      c1 <- getw w ;;
-      rs <- (match w_first c1 with
-             | Some fc =>
-               cfc <- getw fc ;;
-               if w_steal cfc then r <- handle_key fixed f fc ;; ret (r, Some fc) else ret (false, None)
-             | None => ret (false, None)
-             end) ;;
-      let r1 := fst rs in
-      let stealer : ptr := if v_events_asis fixed then None else snd rs in   (* only compared, never dereferenced *)
-      (if r1 then (log_op (OFrameUnref w) ;;; unref fixed f w ;;; ret true)
+  if negb (w_visible c) then ret false
+  else
+    log_op (OFrameRef w) ;;; window_ref w ;;;
+    c1 <- getw w ;;
+    rs <- (match w_first c1 with
+           | Some fc =>
+             cfc <- getw fc ;;
+             if w_steal cfc then r <- handle_key fixed f fc ;; ret (r, Some fc) else ret (false, None)
+           | None => ret (false, None)
+           end) ;;
+    let r1 := fst rs in
+    let stealer : ptr := if v_events_asis fixed then None else snd rs in   (* only compared, never dereferenced *)
+    (if r1 then (log_op (OFrameUnref w) ;;; unref fixed f w ;;; ret true)
+     else
+       c2 <- getw w ;;
+       r2 <- (match w_focus c2 with
+              | Some fc => if ptr_eqb (Some fc) stealer then ret false else handle_key fixed f fc
+              | None => ret false
+              end) ;;
+       if r2 then (log_op (OFrameUnref w) ;;; unref fixed f w ;;; ret true)
        else
-         c2 <- getw w ;;
-         r2 <- (match w_focus c2 with
-                | Some fc => if ptr_eqb (Some fc) stealer then ret false else handle_key fixed f fc
-                | None => ret false
-                end) ;;
-         if r2 then (log_op (OFrameUnref w) ;;; unref fixed f w ;;; ret true)
+         c3 <- getw w ;;
+         r3 <- run_key_handlers fixed f w (w_hs c3) ;;
+         if r3 then (log_op (OFrameUnref w) ;;; unref fixed f w ;;; ret true)
+         else if v_events_asis fixed then
+           c4 <- getw w ;;
+           r4 <- key_kids_asis fixed f w (w_first c4) ;;
+           log_op (OFrameUnref w) ;;; unref fixed f w ;;; ret r4
          else
-           c3 <- getw w ;;
-           r3 <- run_key_handlers fixed f w (w_hs c3) ;;
-           if r3 then (log_op (OFrameUnref w) ;;; unref fixed f w ;;; ret true)
-           else if v_events_asis fixed then
-             c4 <- getw w ;;
-             r4 <- key_kids_asis fixed f w (w_first c4) ;;
-             log_op (OFrameUnref w) ;;; unref fixed f w ;;; ret r4
-           else
-             kids <- copy_children f w ;;
-             r4 <- key_kids fixed f w stealer kids ;;
-             log_op (OFrameUnref w) ;;; unref fixed f w ;;; ret r4)).
+           kids <- copy_children f w ;;
+           r4 <- key_kids fixed f w stealer kids ;;
+           log_op (OFrameUnref w) ;;; unref fixed f w ;;; ret r4)).
 Proof. reflexivity. Qed.
 
 Lemma key_kids_F : forall f w stealer kids,
   key_kids fixed (S f) w stealer kids =
   (match kids with
-    | [] => ret false
-    | k :: kids' =>
-      still <- is_child f w k ;;
-      if negb still then key_kids fixed f w stealer kids'
-      else
-        cw <- getw w ;;
-        if ptr_eqb (w_focus cw) (Some k) || ptr_eqb (Some k) stealer then key_kids fixed f w stealer kids'
-        else r <- handle_key fixed f k ;; if r then ret true else key_kids fixed f w stealer kids'
-    end).
+  | [] => ret false
+  | k :: kids' =>
+    still <- is_child f w k ;;
+    if negb still then key_kids fixed f w stealer kids'
+    else
+      cw <- getw w ;;
+      if ptr_eqb (w_focus cw) (Some k) || ptr_eqb (Some k) stealer then key_kids fixed f w stealer kids'
+      else r <- handle_key fixed f k ;; if r then ret true else key_kids fixed f w stealer kids'
+  end).
 Proof. reflexivity. Qed.
 
 Lemma key_kids_asis_F : forall f w child,
   key_kids_asis fixed (S f) w child =
   (match child with
-    | None => ret false
-    | Some k =>
-      ck <- getw k ;;
-      let next := w_next ck in
-      cw <- getw w ;;
-      if ptr_eqb (w_focus cw) (Some k) then key_kids_asis fixed f w next
-      else r <- handle_key fixed f k ;; if r then ret true else key_kids_asis fixed f w next
-    end).
+  | None => ret false
+  | Some k =>
+    ck <- getw k ;;
+    let next := w_next ck in
+    cw <- getw w ;;
+    if ptr_eqb (w_focus cw) (Some k) then key_kids_asis fixed f w next
+    else r <- handle_key fixed f k ;; if r then ret true else key_kids_asis fixed f w next
+  end).
 Proof. reflexivity. Qed.
 
 Lemma handle_mouse_F : forall f w t inside unset,
   handle_mouse fixed (S f) w t inside unset =
   (c <- getw w ;;
-    if negb (w_visible c) then ret None
+  if negb (w_visible c) then ret None
+  else
+    log_op (OFrameRef w) ;;; window_ref w ;;;
+    if v_events_asis fixed then
+      c1 <- getw w ;;
+      r <- mouse_kids_asis fixed f w (w_first c1) t inside unset ;;
+      match r with
+      | Some _ => log_op (OFrameUnref w) ;;; unref fixed f w ;;; ret r
+      | None =>
+        c2 <- getw w ;;
+        hr <- run_mouse_handlers fixed f w (w_hs c2) t unset ;;
+        log_op (OFrameUnref w) ;;; unref fixed f w ;;; ret (if hr then Some w else None)
+      end
     else
-      log_op (OFrameRef w) ;;; window_ref w ;;;
-      if v_events_asis fixed then
-        c1 <- getw w ;;
-        r <- mouse_kids_asis fixed f w (w_first c1) t inside unset ;;
-        match r with
-        | Some _ => log_op (OFrameUnref w) ;;; unref fixed f w ;;; ret r
-        | None =>
-          c2 <- getw w ;;
-          hr <- run_mouse_handlers fixed f w (w_hs c2) t unset ;;
-          log_op (OFrameUnref w) ;;; unref fixed f w ;;; ret (if hr then Some w else None)
-        end
-      else
-        kids <- copy_children f w ;;
-        r <- mouse_kids fixed f w kids t inside unset ;;
-        match r with
-        | Some _ => log_op (OFrameUnref w) ;;; unref fixed f w ;;; ret r
-        | None =>
-          c2 <- getw w ;;
-          hr <- run_mouse_handlers fixed f w (w_hs c2) t unset ;;
-          log_op (OFrameUnref w) ;;; unref fixed f w ;;; ret (if hr then Some w else None)
-        end).
+      kids <- copy_children f w ;;
+      r <- mouse_kids fixed f w kids t inside unset ;;
+      match r with
+      | Some _ => log_op (OFrameUnref w) ;;; unref fixed f w ;;; ret r
+      | None =>
+        c2 <- getw w ;;
+        hr <- run_mouse_handlers fixed f w (w_hs c2) t unset ;;
+        log_op (OFrameUnref w) ;;; unref fixed f w ;;; ret (if hr then Some w else None)
+      end).
 Proof. reflexivity. Qed.
 
 Lemma mouse_kids_F : forall f w kids t inside unset,
   mouse_kids fixed (S f) w kids t inside unset =
   (match kids with
-    | [] => ret None
-    | k :: kids' =>
-      still <- is_child f w k ;;
-      if negb still then mouse_kids fixed f w kids' t inside unset
-      else
-      ck <- getw k ;;
-      if negb (w_steal ck) && negb inside then mouse_kids fixed f w kids' t inside unset
-      else r <- handle_mouse fixed f k t inside unset ;;
-           match r with Some _ => ret r | None => mouse_kids fixed f w kids' t inside unset end
-    end).
+  | [] => ret None
+  | k :: kids' =>
+    still <- is_child f w k ;;
+    if negb still then mouse_kids fixed f w kids' t inside unset
+    else
+    ck <- getw k ;;
+    if negb (w_steal ck) && negb inside then mouse_kids fixed f w kids' t inside unset
+    else r <- handle_mouse fixed f k t inside unset ;;
+         match r with Some _ => ret r | None => mouse_kids fixed f w kids' t inside unset end
+  end).
 Proof. reflexivity. Qed.
 
 Lemma mouse_kids_asis_F : forall f w child t inside unset,
   mouse_kids_asis fixed (S f) w child t inside unset =
   (match child with
-    | None => ret None
-    | Some k =>
-      ck <- getw k ;;
-      let next := w_next ck in
-      if negb (w_steal ck) && negb inside then mouse_kids_asis fixed f w next t inside unset
-      else r <- handle_mouse fixed f k t inside unset ;;
-           match r with Some _ => ret r | None => mouse_kids_asis fixed f w next t inside unset end
-    end).
+  | None => ret None
+  | Some k =>
+    ck <- getw k ;;
+    let next := w_next ck in
+    if negb (w_steal ck) && negb inside then mouse_kids_asis fixed f w next t inside unset
+    else r <- handle_mouse fixed f k t inside unset ;;
+         match r with Some _ => ret r | None => mouse_kids_asis fixed f w next t inside unset end
+  end).
 Proof. reflexivity. Qed.
 
 Lemma ref_up_F : forall f w,
   ref_up fixed (S f) w =
   (match w with
-    | None => ret []
-    | Some a => log_op (OFrameRef a) ;;; window_ref a ;;; c <- getw a ;; l <- ref_up fixed f (w_parent c) ;; ret (a :: l)
-    end).
+  | None => ret []
+  | Some a => log_op (OFrameRef a) ;;; window_ref a ;;; c <- getw a ;; l <- ref_up fixed f (w_parent c) ;; ret (a :: l)
+  end).
 Proof. reflexivity. Qed.
 
 Lemma unref_list_F : forall f l,
   unref_list fixed (S f) l =
   (match l with
-    | [] => ret tt
-    | a :: l' => log_op (OFrameUnref a) ;;; unref fixed f a ;;; unref_list fixed f l'
-    end).
+  | [] => ret tt
+  | a :: l' => log_op (OFrameUnref a) ;;; unref fixed f a ;;; unref_list fixed f l'
+  end).
 Proof. reflexivity. Qed.
 
 Lemma on_term_mouse_F : forall f t,
   on_term_mouse fixed (S f) t =
   (let root := 1%positive in
-    (if v_events_asis fixed then ret tt else log_op (OFrameRef root) ;;; window_ref root) ;;;
-    r <- getr root ;;
-    (match t with
-     | MPress => setr root (set_rpress r (Some true))
-     | MDrag =>
-       if r_dragging r then ret tt
-       else
-         let inside := match r_press r with Some b => b | None => false end in
-         let unset := match r_press r with Some _ => false | None => true end in
-         src <- handle_mouse fixed f root MDragStart inside unset ;;
-         src' <- (match src with
-                  | Some s => if v_events_asis fixed then ret src
-                              else b <- in_tree f root s ;; ret (if b then src else None)
-                  | None => ret None
-                  end) ;;
-         updr root (fun r => set_rdrag r (Some src')) ;;;
-         updr root (fun r => set_rdragging r true)
-     | MRelease =>
-       if r_dragging r then
-         handle_mouse fixed f root MDragDrop true false ;;;
-         r1 <- getr root ;;
-         (match r_drag r1 with
-          | Some (Some d) =>
-            abs_geometry f d ;;;
-            if v_events_asis fixed then handle_mouse fixed f d MDragStop true false ;;; ret tt
-            else                                                  (* _handle_mouse_at *)
-              cd <- getw d ;; count_up f (w_parent cd) ;;;
-              cd' <- getw d ;; held <- ref_up fixed f (w_parent cd') ;;
-              handle_mouse fixed f d MDragStop true false ;;;
-              unref_list fixed f held
-          | Some None => ret tt
-          | None => note_uninit
-          end) ;;;
-         updr root (fun r => set_rdragging r false)
+  (if v_events_asis fixed then ret tt else log_op (OFrameRef root) ;;; window_ref root) ;;;
+  r <- getr root ;;
+  (match t with
+   | MPress => setr root (set_rpress r (Some true))
+   | MDrag =>
+     if r_dragging r then ret tt
+     else
+       let inside := match r_press r with Some b => b | None => false end in
+       let unset := match r_press r with Some _ => false | None => true end in
+       src <- handle_mouse fixed f root MDragStart inside unset ;;
+       src' <- (match src with
+                | Some s => if v_events_asis fixed then ret src
+                            else b <- in_tree f root s ;; ret (if b then src else None)
+                | None => ret None
+                end) ;;
+       updr root (fun r => set_rdrag r (Some src')) ;;;
+       updr root (fun r => set_rdragging r true)
+   | MRelease =>
+     if r_dragging r then
+       handle_mouse fixed f root MDragDrop true false ;;;
+       r1 <- getr root ;;
+       (match r_drag r1 with
+        | Some (Some d) =>
+          abs_geometry f d ;;;
+          if v_events_asis fixed then handle_mouse fixed f d MDragStop true false ;;; ret tt
+          else                                                  (* _handle_mouse_at *)
+            cd <- getw d ;; count_up f (w_parent cd) ;;;
+            cd' <- getw d ;; held <- ref_up fixed f (w_parent cd') ;;
+            handle_mouse fixed f d MDragStop true false ;;;
+            unref_list fixed f held
+        | Some None => ret tt
+        | None => note_uninit
+        end) ;;;
+       updr root (fun r => set_rdragging r false)
+     else ret tt
+   | _ => ret tt
+   end) ;;;
+  handled <- handle_mouse fixed f root t true false ;;
+  (match t with
+   | MDrag =>
+     r2 <- getr root ;;
+     match r_drag r2 with
+     | Some (Some d) =>
+       if negb (ptr_eqb handled (Some d))
+       then
+         abs_geometry f d ;;;
+         if v_events_asis fixed then handle_mouse fixed f d MDragOutside true false ;;; ret tt
+         else                                                   (* _handle_mouse_at *)
+           cd <- getw d ;; count_up f (w_parent cd) ;;;
+           cd' <- getw d ;; held <- ref_up fixed f (w_parent cd') ;;
+           handle_mouse fixed f d MDragOutside true false ;;;
+           unref_list fixed f held
        else ret tt
      | _ => ret tt
-     end) ;;;
-    handled <- handle_mouse fixed f root t true false ;;
-    (match t with
-     | MDrag =>
-       r2 <- getr root ;;
-       match r_drag r2 with
-       | Some (Some d) =>
-         if negb (ptr_eqb handled (Some d))
-         then
-           abs_geometry f d ;;;
-           if v_events_asis fixed then handle_mouse fixed f d MDragOutside true false ;;; ret tt
-           else                                                   (* _handle_mouse_at *)
-             cd <- getw d ;; count_up f (w_parent cd) ;;;
-             cd' <- getw d ;; held <- ref_up fixed f (w_parent cd') ;;
-             handle_mouse fixed f d MDragOutside true false ;;;
-             unref_list fixed f held
-         else ret tt
-       | _ => ret tt
-       end
-     | _ => ret tt
-     end) ;;;
-    (if v_events_asis fixed then ret tt else log_op (OFrameUnref root) ;;; unref fixed f root)).
+     end
+   | _ => ret tt
+   end) ;;;
+  (if v_events_asis fixed then ret tt else log_op (OFrameUnref root) ;;; unref fixed f root)).
 Proof. reflexivity. Qed.
